@@ -478,21 +478,31 @@ def synth_corpus(repo):
     # mails with attachments: named after their type, without / with an unknown extension (the type comes from the declared MIME
     # type), nameless parts, byte-order-marked text parts, an unsupported type, twice the same name
     out["c06_attachments.eml"] = mail_with_attachments()
-    # optional attributes absent: comments without w:id / author / date (converters leave them out)
-    try:
-        raw = open(os.path.join(res, "modern_ms/sample_with_comment_and_table.docx"), "rb").read()
-        z = zipfile.ZipFile(io.BytesIO(raw))
-        if "word/comments.xml" in z.namelist():
-            import re as _re
-            cx = z.read("word/comments.xml").decode("utf-8")
-            first = _re.search(r"<w:comment\b[^>]*>.*?</w:comment>", cx, _re.S)
-            if first:
-                bare = _re.sub(r"<w:comment\b[^>]*>", "<w:comment>", first.group(0), count=1)
-                no_id = _re.sub(r'\sw:id="[^"]*"', "", first.group(0), count=1)
-                cx2 = cx.replace(first.group(0), first.group(0) + no_id + bare + bare.replace("</w:comment>", "<w:p><w:r><w:t>another one</w:t></w:r></w:p></w:comment>"), 1)
-                out["c06_comments_without_id.docx"] = with_part(raw, "word/comments.xml", cx2.encode("utf-8"))
-    except (OSError, KeyError, zipfile.BadZipFile):
-        pass
+    # optional attributes absent: comments / footnotes / endnotes without w:id, author, date (converters leave them out)
+    import re as _re
+    for fixture in ("modern_ms/sample_with_comment_and_table.docx", "modern_ms/thesis-template.docx"):
+        try:
+            raw = open(os.path.join(res, fixture), "rb").read()
+            z = zipfile.ZipFile(io.BytesIO(raw))
+            doc, touched = raw, False
+            for part, tag in (("word/comments.xml", "w:comment"), ("word/footnotes.xml", "w:footnote"), ("word/endnotes.xml", "w:endnote")):
+                if part not in z.namelist():
+                    continue
+                cx = z.read(part).decode("utf-8")
+                items = _re.findall(rf"<{tag}\b[^>]*>.*?</{tag}>", cx, _re.S)
+                items = [x for x in items if "w:type=" not in x.split(">", 1)[0]]
+                if not items:
+                    continue
+                last = items[-1]
+                no_id = _re.sub(r'\sw:id="[^"]*"', "", last, count=1)
+                bare = _re.sub(rf"<{tag}\b[^>]*>", f"<{tag}>", last, count=1)
+                other = bare.replace(f"</{tag}>", f"<w:p><w:r><w:t>another one</w:t></w:r></w:p></{tag}>")
+                doc = with_part(doc, part, cx.replace(last, last + no_id + bare + other, 1).encode("utf-8"))
+                touched = True
+            if touched:
+                out["c06_notes_without_id_" + os.path.basename(fixture)] = doc
+        except (OSError, KeyError, zipfile.BadZipFile):
+            pass
     # member names that differ only in case, referenced with yet another spelling (case-insensitive producers / file systems)
     try:
         raw = open(os.path.join(res, "modern_ms/pptx_formula_image.pptx"), "rb").read()
